@@ -1599,6 +1599,8 @@ func (t *Topic) thisUserSub(sess *Session, pkt *ClientComMessage, asUid types.Ui
 			} else {
 				userData.modeWant = modeWant
 			}
+			// Ownership is taken only by accepting a transfer on an existing subscription.
+			userData.modeWant &^= types.ModeOwner
 		}
 
 		// Reject new subscription: 'given' permissions have no 'J'.
@@ -1723,6 +1725,10 @@ func (t *Topic) thisUserSub(sess *Session, pkt *ClientComMessage, asUid types.Ui
 			if !oldWant.IsJoiner() {
 				// Set permissions NO WORSE than default, but possibly better (admin or owner banned himself).
 				userData.modeWant = userData.modeGiven | t.accessFor(asLvl)
+				if t.owner != asUid {
+					// Ownership is taken only by accepting a transfer explicitly.
+					userData.modeWant &^= types.ModeOwner
+				}
 			}
 		} else if userData.modeWant != modeWant {
 			// The user has provided a new modeWant and it' different from the one before
